@@ -117,7 +117,7 @@ def settings_space(thorough):
   positions = [ABSENT] + [st("position", "pct", n, "", al) for n in pos_v for al in ("", "line-left", "center", "line-right")]
   sizes = [ABSENT, st("size", "pct", 4000), st("size", "pct", 10000)] + ([st("size", "pct", 0)] if thorough else [])
   verticals = [ABSENT, st("vertical", "kw", 0, "rl"), st("vertical", "kw", 0, "lr")]
-  aligns = [ABSENT] + [st("align", "kw", 0, a) for a in ("start", "center", "end", "left", "right")]
+  aligns = [ABSENT] + [st("align", "kw", 0, a) for a in (("start", "center", "end", "left", "right") if thorough else ("start", "right"))]
   return lines, positions, sizes, verticals, aligns
 
 
@@ -142,7 +142,7 @@ TEXT_CHARS = "abcXYZ 019.,!?'-é中\U0001F600"
 ENTITIES = ["&amp;", "&lt;", "&gt;", "&nbsp;", "&lrm;", "&rlm;", "&#65;", "&#x42;", "&#x4e2d;", "&#128512;", "&#66 ", "& ", "&.", "AT&T", "&;"]
 FG = ["white", "lime", "cyan", "red", "yellow", "magenta", "blue", "black"]
 LANGS = ["en", "fr-CA", "ja", "zh-Hans"]
-VOICES = ["Bob", "Esme Smith", "X", "Dr. A"]
+VOICES = ["Bob", "Esme Smith", "X", "Dr. A", "Tom &amp; Al", "R&D", "A &lt; B"]
 
 
 def gen_run(rng, maxlen=6):
@@ -314,7 +314,7 @@ def items_of(p):
         items.append({"c": ord(ch), "b": b, "i": i, "u": u, "col": col, "bg": bg, "lang": lang, "role": role, "rid": rid, "rb": rb})
       return
     if isinstance(e, model.Br):
-      items.append({"c": 10, "b": 0, "i": 0, "u": 0, "col": [], "bg": [], "lang": [], "role": "", "rid": 0, "rb": -1})
+      items.append({"c": 10, "b": 0, "i": 0, "u": 0, "col": [], "bg": [], "lang": [], "role": role, "rid": rid, "rb": -1})
       return
     if isinstance(e, model.Ruby):
       nruby[0] += 1
@@ -380,7 +380,7 @@ def region_obs(doc, r):
     return int(max(-10 ** 8, min(10 ** 8, v)))
   return {"id": r.get_id() or "", "ox": h(o.x.value) if o else -1, "oy": h(o.y.value) if o else -1,
           "ew": h(e.width.value) if e else -1, "eh": h(e.height.value) if e else -1, "pct": 1 if ok else 0,
-          "da": da.value if da is not None else "after", "ta": ta.value if ta is not None else "start",
+          "da": da.value if da is not None else "before", "ta": ta.value if ta is not None else "start",   # TTML initial values
           "wm": wm.value if wm is not None else "lrtb", "reg": 1 if doc.get_region(r.get_id()) is r else 0}
 
 
